@@ -72,7 +72,7 @@ func c14Gen(rt *rapid.T) c14Case {
 	c := c14Case{History: gen.History(rt, cfg, db), Tick: rapid.Bool().Draw(rt, "tick")}
 	names := db.TableNames()
 	t := db.Tables[names[rapid.IntRange(0, len(names)-1).Draw(rt, "tbl")]]
-	kinds := []string{"unknown-insert", "unknown-update", "unknown-delete", "dup-create", "colcount", "type", "intrange", "oversize", "upd-type", "upd-oversize-kth", "create-badlen", "create-longname", "where-error-kth", "where-error-kth"}
+	kinds := []string{"unknown-insert", "unknown-update", "unknown-delete", "dup-create", "colcount", "type", "intrange", "oversize", "upd-type", "upd-oversize-kth", "create-badlen", "create-longname", "where-error-kth", "where-error-kth", "case-variant"}
 	for tries := 0; ; tries++ {
 		c.Kind = rapid.SampledFrom(kinds).Draw(rt, "failkind")
 		s := model.Stmt{Table: t.Name}
@@ -88,6 +88,21 @@ func c14Gen(rt *rapid.T) c14Case {
 			s = model.Stmt{Kind: "delete", Table: "no_such_table"}
 		case "dup-create":
 			s = model.Stmt{Kind: "create", Table: t.Name, Cols: gen.Columns(rt, 3)}
+		case "case-variant":
+			// the table addressed in a different letter case: table names are case-sensitive, so
+			// this is an unknown table - whatever the answer is, an error must not leave rows behind
+			variant := strings.ToUpper(t.Name)
+			if variant == t.Name {
+				ok = false
+				break
+			}
+			n := rapid.SampledFrom([]int{1, 1, 2, 9}).Draw(rt, "n")
+			s = gen.InsertStmt(rt, t, n, false, true)
+			s.Table = variant
+			s.SQL = gen.RenderStmt(gen.NewStyle(rt), s)
+			c.K, c.N = 0, n
+			c.Expect, c.Failing = model.ErrNoTable, s
+			return c
 		case "where-error-kth":
 			// DELETE / UPDATE whose WHERE cannot be evaluated for a later row only:
 			// an ordering comparison that meets a NULL (or a mistyped literal)
@@ -316,7 +331,7 @@ func c14Run(c c14Case, st *vlib.Stats) string {
 	ferr := eng.ExecStmt(c.Failing)
 	if ferr == nil {
 		switch c.Kind {
-		case "create-badlen", "create-longname", "where-error-kth":
+		case "create-badlen", "create-longname", "where-error-kth", "case-variant":
 			// whether these fail is the implementation's choice (how wide the catalog's length
 			// column is, whether a comparison with NULL is an error); the property only says
 			// what must hold IF the statement returns an error
